@@ -542,7 +542,8 @@ def run(prop, tier):
     res.coverage['infeasible_for_the_code'] = infeasible
     by_clause, by_how, samples = {}, {}, []
     nontrivial = 0
-    known = 0
+    known = suppressed = 0
+    per_clause = {}
     for r in chosen:
         v = verdicts[r['id']]
         status, clause = v['C12']
@@ -568,13 +569,14 @@ def run(prop, tier):
                                       'corrupt each other, e.g. ' + short(r))
                 if len(samples) < 6 and known <= 2:
                     samples.append({'execution': short(r), 'verdict': clause, 'how': r['how']})
-            else:
+            elif per_clause.get(clause, 0) < 5 and len(res.violations) < 40:
+                per_clause[clause] = per_clause.get(clause, 0) + 1
                 res.violation(f'{clause}: {short(r)}',
                               {'family': 'random', 'record': r, 'verdict': [status, clause],
                                'model_verdict': mv,
                                'how': 'real execution judged by TLC (RandomTrace.tla)'})
-                if len(res.violations) >= 25:
-                    break
+            else:
+                suppressed += 1
         elif mv and mv[0] == 'viol':
             res.drift.append({'where': 'model-verdict', 'execution': short(r), 'model': mv})
     res.coverage['samples'] = samples
@@ -582,6 +584,7 @@ def run(prop, tier):
     res.coverage['verdicts'] = by_clause
     res.coverage['executions_by_origin'] = by_how
     res.coverage['known_finding_hits'] = {'S7': known} if known else {}
+    res.coverage['violations_without_replay_file'] = suppressed
     res.coverage['rule'] = (
         'one evaluation = one real execution: a dataset object built once (kind, n, buffer '
         'size, build-time rng answers), 1-3 real iterators over that ONE object, a sequence of '
